@@ -4,6 +4,7 @@ import Deb822Verif.Driver.Rel
 import Deb822Verif.Driver.Cpr
 import Deb822Verif.Driver.Total
 import Deb822Verif.Driver.Codec
+import Deb822Verif.Driver.Sat
 open Deb822Verif
 
 def dispatch (op : String) (args : List String) : String :=
@@ -12,6 +13,7 @@ def dispatch (op : String) (args : List String) : String :=
     <|> (Driver.Cpr.handle op args)
     <|> (Driver.Total.handle op args)
     <|> (Driver.Codec.handle op args)
+    <|> (Driver.Sat.handle op args)
   match r with
   | some s => s
   | none => "bad-op"
